@@ -50,11 +50,31 @@ void ares_cancel(ares_channel_t *channel)
     ares_llist_t      *list_copy = channel->all_queries;
     channel->all_queries         = ares_llist_create(NULL);
 
-    /* Out of memory, this function doesn't return a result code though so we
-     * can't report to caller */
+    /* Out of memory.  This function doesn't return a result code so we can't
+     * report to the caller, and silently cancelling nothing is worse.  Cancel
+     * in place instead: queries started by the callbacks are appended behind
+     * the current last entry, so stop once that one has been cancelled. */
     if (channel->all_queries == NULL) {
-      channel->all_queries = list_copy; /* LCOV_EXCL_LINE: OutOfMemory */
-      goto done;                        /* LCOV_EXCL_LINE: OutOfMemory */
+      /* LCOV_EXCL_START: OutOfMemory */
+      const ares_llist_node_t *last      = ares_llist_node_last(list_copy);
+      ares_bool_t              last_seen = ARES_FALSE;
+
+      channel->all_queries = list_copy;
+      while (!last_seen &&
+             (node = ares_llist_node_first(channel->all_queries)) != NULL) {
+        ares_query_t *query;
+
+        last_seen               = (node == last) ? ARES_TRUE : ARES_FALSE;
+        query                   = ares_llist_node_claim(node);
+        query->node_all_queries = NULL;
+        ares_detach_query(query);
+        query->callback(query->arg, ARES_ECANCELLED, 0, NULL);
+        ares_free_query(query);
+      }
+      ares_check_cleanup_conns(channel);
+      ares_queue_notify_empty(channel);
+      goto done;
+      /* LCOV_EXCL_STOP */
     }
 
     node = ares_llist_node_first(list_copy);
